@@ -167,6 +167,10 @@ class Contract:
             for v, reqs, lanes, tag in self.div_consts:
                 if tier == 'quick' and v not in self.div_quick:
                     continue
+                # the operator forms forward to div(): in the quick tier one pinned divisor shows the forwarding, div()
+                # itself carries the quick lattice; the thorough tier runs the whole lattice for every form
+                if tier == 'quick' and self.family != 'int_div' and not (v == 3 and tag == 'even lanes'):
+                    continue
                 c = copy.copy(self)
                 c.requires = list(self.requires) + reqs
                 # post-conditions of the lanes whose divisor is pinned; the other lanes' divisors are unconstrained (zero included)
@@ -1271,6 +1275,16 @@ def f_denominator(c):
                 st = T(ELEM[el][2], S)
                 ens = [('value() reports the divisor', '%s == %s' % (st.lane('(%s).m.d' % RV, 0), t.lane(c.a(0), 0)))]
             k = Contract('denom_ctor', ['C14'] if not vec else ['C15'], requires=req, ensures=ens, cxx='%s({0})' % ('avel::Denominator<%s>' % t.cxx()), flags=['div'])
+            if fn['owner'] == 'Denom_i32':
+                # code-level contract (modulo-lemma L4): the constructor stores the signed Granlund-Montgomery parameters of d
+                d0 = c.a(0)
+                absd = '(uint32_t)(((int32_t)%s) < 0 ? 0u - (uint32_t)%s : (uint32_t)%s)' % (d0, d0, d0)
+                # d == MIN: the code divides by abs(MIN) == MIN (a different application of the uninterpreted divider with the
+                # same value mod 2^32); that divisor is covered by the constant-divisor obligations of div instead
+                k.ensures += [('stores mp = floor(2^(31+l)/|d|) + 1 - 2^32', '(uint32_t)%s == 0x80000000u || (uint32_t)(%s).mp == spec_gm_magic_i32(%s, spec_gm_l_signed(%s, 32))' % (d0, RV, absd, absd)),
+                              ('stores the post-shift l - 1', '(uint32_t)(%s).sh == (uint32_t)(spec_gm_l_signed(%s, 32) - 1u)' % (RV, absd)),
+                              ('stores the sign of d', '(uint32_t)(%s).d_sign == (((int32_t)%s) < 0 ? 0xffffffffu : 0u)' % (RV, d0))]
+                k.defines = ['AVM_DIV_UF']
             if fn['owner'] == 'Denom_u32':
                 # code-level contract (modulo-lemma L3): the constructor stores the Granlund-Montgomery parameters of d
                 d0 = c.a(0)
@@ -1427,9 +1441,47 @@ def denom_variants(k, tier):
         g.gm = True
         g.defines = ['AVM_MUL_UF']
         out.append(g)
+    if d['dct'] in ('Denom_i32', 'Denom_i64') and k.family == 'denom_div':
+        # signed code-level contract (modulo-lemma L4): for every field value with a valid shift amount and a sign word of
+        # 0 / -1, div evaluates the signed Granlund-Montgomery expression.  Overflow-freedom of that evaluation depends on the
+        # fields being those of a real divisor and is the business of the safety obligations below, not of this one.
+        g = copy.copy(k)
+        b = t.bits
+        pn, pd = d['pn']
+        ones = (1 << b) - 1
+        g.requires = ['(uint%d_t)(%s).sh < %du' % (b, pd, b), '((uint%d_t)(%s).d_sign == 0 || (uint%d_t)(%s).d_sign == %dull)' % (b, pd, b, pd, ones)]
+        g.ensures = [('div evaluates the signed Granlund-Montgomery expression',
+                      'spec_gm_div_i%d_ok((uint%d_t)(%s).quot, (uint%d_t)(%s).rem, (uint%d_t)%s, (uint%d_t)(%s).mp, (uint%d_t)(%s).sh, (uint%d_t)(%s).d_sign, (uint%d_t)(%s).d)' % (
+                          b, b, RV, b, RV, b, pn, b, pd, b, pd, b, pd, b, pd))]
+        g.harness = {'pre': ['%s a0;' % d['nct'], '%s a1;' % d['dct']], 'args': ['a0', 'a1']}
+        g.extra_roots = []
+        g.part = 'signed GM expression, all n, all field values'
+        g.partial = None
+        g.gm = True
+        g.defines = ['AVM_MUL_UF']
+        g.cbmc_flags = ['--no-signed-overflow-check']
+        out.append(g)
     if t.bits >= 32:
         # value obligations (quotient against the reference division) are beyond the SAT back ends at 32/64 bits even for
-        # a constant divisor (measured); only the code-level contract above is discharged for these types
+        # a constant divisor (measured); only the code-level contract above is discharged for these types -- plus, for the
+        # scalar-backed forms, "using a denominator never traps / is never undefined": every safety obligation of div
+        # (signed overflow, shift amounts, divide traps) for all n, the denominator built by the real constructor from each
+        # lattice divisor; the only value clause kept is the one that needs no divider, rem == n - quot * d (mod 2^bits)
+        if t.W == 1 and k.family == 'denom_div':
+            pn, pd = d['pn']
+            b = t.bits
+            # divisors for which the overflow-freedom of the signed evaluation is within SAT reach (for the others it
+            # needs the Granlund-Montgomery bounds themselves: measured > 200 s for 3, 7, -1, -2, -3, -7, -10)
+            safe_lat = [1, 5, 10, 641, 1 << (b // 2), (1 << (b // 2)) + 1, (1 << (b - 1)) - 1, 1 << (b - 1), (1 << (b - 1)) + 1]
+            for v in safe_lat:
+                if tier == 'quick' and v not in (1, 10, 1 << (b - 1)):
+                    continue
+                c = mk('d=%d no trap, no undefined behaviour; rem == n - quot * d' % v, ['%dull' % v])
+                c.ensures = [('remainder matches the quotient', '%s == spec_trunc(%s - %s * %dull, %d)' % (
+                    t.lane('(%s).rem' % RV, 0), t.lane(pn, 0), t.lane('(%s).quot' % RV, 0), v, t.bits))]
+                c.requires = ['spec_div_defined(%s, %dull, %d, %d)' % (t.lane(pn, 0), v, t.bits, t.signed)]
+                c.partial = 'safety obligations and remainder consistency for all n, one obligation per divisor d in {%s}' % ', '.join(str(v) for v in safe_lat)
+                out.append(c)
         return out
     if t.bits <= 8 and t.W == 1:
         # all divisors: symbolic d != 0
